@@ -699,7 +699,47 @@ pub fn run_parent(spec: &PropSpec, tier: Tier, seed: u64) -> i32 {
         // library was being driven is a totality violation for C01 and makes any other check's
         // result unusable.
         if spec.id == "C01" {
-            ctx.violation("worker process died abnormally while driving the library", d.clone());
+            let shard = d["shard"].as_u64().unwrap_or(0);
+            let stash = format!("{}/work/C01/stash_{}.bin", verif_dir(), shard);
+            let input = crate::props::c01::read_stash(&stash);
+            let witness = json!({
+                "child": d,
+                "entry_point": input.as_ref().map(|x| x.0.clone()),
+                "input_hex": input.as_ref().map(|x| hex(&x.1)),
+            });
+            let watchdog = d["status"].as_str().map(|s| s.contains("86")).unwrap_or(false);
+            let confirmed_hangs = ctx.rep.violations.iter().filter(|v| v["what"].as_str().map(|w| w.starts_with("a call does not return")).unwrap_or(false)).count();
+            if watchdog && confirmed_hangs >= 2 {
+                // two isolated re-runs already confirmed non-termination in this run: do not spend
+                // another minute per shard on the same symptom
+                ctx.violation("a call does not return (20 s watchdog; isolation skipped after two confirmed cases in this run)", witness);
+            } else if watchdog {
+                // bounded progress: re-run the stashed input alone with a 60 s budget
+                let exe = std::env::current_exe().expect("current_exe");
+                let mut alone = Command::new(&exe).arg("isolate").arg("C01").arg(&stash).stdin(Stdio::null()).spawn();
+                let mut finished = false;
+                if let Ok(child) = alone.as_mut() {
+                    let t0 = Instant::now();
+                    while t0.elapsed().as_secs() < 60 {
+                        if let Ok(Some(_)) = child.try_wait() {
+                            finished = true;
+                            break;
+                        }
+                        std::thread::sleep(std::time::Duration::from_millis(200));
+                    }
+                    if !finished {
+                        let _ = child.kill();
+                        let _ = child.wait();
+                    }
+                }
+                if finished {
+                    ctx.inconclusive("a call exceeded the 20 s watchdog but returned when re-run alone");
+                } else {
+                    ctx.violation("a call does not return (20 s watchdog, then 60 s alone in a fresh process)", witness);
+                }
+            } else {
+                ctx.violation("worker process died abnormally while driving the library", witness);
+            }
         } else {
             broken.push(format!("child died: {d}"));
         }
